@@ -320,4 +320,89 @@ def connEvent (q : Quirks) (c : Conn) : Event → Conn
 def ownEvents (cid : Nat) (evs : List Event) : List Event := evs.filter fun e => e.conn? == some cid
 def otherEvents (cid : Nat) (evs : List Event) : List Event := evs.filter fun e => !(e.conn? == some cid)
 
+/-! ### Blocked clients
+
+A client whose BLPOP/BRPOP (sent directly) finds every list empty is registered as a waiter; the
+loop serves waiters only once a whole frame is over — after a direct LPUSH/RPUSH (the pushed key),
+after a direct RENAME/RENAMENX (every key of that database somebody waits on, sorted), and after an
+EXEC (the keys its LPUSH/RPUSH commands named, in queue order, then the swept databases): inside
+EXEC nobody else is served (`Server::serve_key`, the tail of `handle_exec`, the LPUSH/RPUSH arms of
+`process_normal_command`: no notification when `conn_id == 0`).  `Loop.frame` is `processFrame`
+followed by that service, i.e. a frame event followed by an `Event.between`.  EVAL/EVALSHA (which
+sweep too) and time-outs of waiters are outside this model (C12, C13). -/
+
+structure Waiter where
+  cid : Nat
+  db : Nat
+  keys : List Bytes
+  left : Bool
+  deriving Repr, DecidableEq
+
+structure Loop where
+  srv : Server := {}
+  /-- registration order -/
+  waiters : List Waiter := []
+
+/-- serve `(db, key)` while it has both a waiter (first registered first) and an element; fuel = number of waiters + 1 -/
+def serveKey (q : KS.Quirks) (now : Nat) : Nat → KS.Store → List Waiter → Nat → Bytes → KS.Store × List Waiter × List (Nat × Frame)
+  | 0, s, ws, _, _ => (s, ws, [])
+  | f+1, s, ws, db, key =>
+    match ws.find? (fun w => w.db == db && w.keys.contains key) with
+    | none => (s, ws, [])
+    | some w =>
+      match KS.step q s db now [if w.left then lpopName else rpopName, key] none with
+      | (s', .bulk x) =>
+        let r := serveKey q now f s' (ws.filter fun v => v.cid != w.cid) db key
+        (r.1, r.2.1, (w.cid, .array [.bulk key, .bulk x]) :: r.2.2)
+      | _ => (s, ws, [])
+
+def serveAll (q : KS.Quirks) (now : Nat) (s : KS.Store) (ws : List Waiter) : List (Nat × Bytes) → KS.Store × List Waiter × List (Nat × Frame)
+  | [] => (s, ws, [])
+  | (db, key) :: rest =>
+    let r := serveKey q now (ws.length + 1) s ws db key
+    let r2 := serveAll q now r.1 r.2.1 rest
+    (r2.1, r2.2.1, r.2.2 ++ r2.2.2)
+
+def isPushName (n : String) : Bool := n == "LPUSH" || n == "RPUSH"
+def isSweepName (n : String) : Bool := n == "RENAME" || n == "RENAMENX"
+
+/-- keys signalled ready by commands run one after another starting in database `db`: the keys of
+    LPUSH/RPUSH in order, and the databases to sweep (first occurrence first) -/
+def readyScan (q : Quirks) (inExec : Bool) : Nat → List Cmd → List (Nat × Bytes) × List Nat
+  | _, [] => ([], [])
+  | db, c :: cs =>
+    let r := readyScan q inExec (dbAfter q inExec db c) cs
+    match c with
+    | _ :: key :: _ =>
+      if isPushName (nameOf c) then ((db, key) :: r.1, r.2)
+      else if isSweepName (nameOf c) then (r.1, db :: r.2.filter (· != db))
+      else r
+    | _ => r
+
+def sweepKeys (ws : List Waiter) (db : Nat) : List Bytes :=
+  KS.sortBytes (KS.dedup ((ws.filter (·.db == db)).flatMap (·.keys)))
+
+/-- keys of a blocking pop: everything between the name and the time-out -/
+def blockingKeys (cmd : Cmd) : List Bytes := ((cmd.drop 1).reverse.drop 1).reverse
+
+/-- one frame, then the service of blocked clients it made possible; the third component is what
+    is sent to OTHER (blocked) connections: `(connection, reply)` in the order served -/
+def Loop.frame (q : Quirks) (L : Loop) (cid : Nat) (r : Req) : Loop × Reply × List (Nat × Frame) :=
+  let c := L.srv.conns cid
+  let res := processFrame q L.srv cid r
+  let name := nameOf r.cmd
+  let direct := !r.cmd.isEmpty && kindOf name == .other && !(c.inTx && !q.immediate.contains name)
+  let ws1 := match res.2 with
+    | .one .noResponse => L.waiters ++ [⟨cid, c.db, blockingKeys r.cmd, name == "BLPOP"⟩]
+    | _ => L.waiters
+  let scan := match res.2 with
+    | .exec _ => readyScan q true c.db c.queue
+    | _ => if direct then readyScan q false c.db [r.cmd] else ([], [])
+  let ready := scan.1 ++ scan.2.flatMap fun db => (sweepKeys ws1 db).map fun k => (db, k)
+  let sv := serveAll q.ks r.now res.1.store ws1 ready
+  ({ srv := { res.1 with store := sv.1 }, waiters := sv.2.1 }, res.2, sv.2.2)
+
+def Loop.disconnect (q : Quirks) (L : Loop) (cid : Nat) : Loop :=
+  { srv := (stepEvent q L.srv (.disconnect cid)).1, waiters := L.waiters.filter fun w => w.cid != cid }
+
 end Ferrous.Tx
